@@ -483,7 +483,7 @@ func init() { register(c19{}) }
 func (c19) ID() string    { return "C19" }
 func (c19) Level() string { return "fault_enumeration" }
 func (c19) Rule() string {
-	return "case = C13-style workload (1-4 writers, clock decisions around 3-6 boundaries) plus an ordered list of fault actions the scheduler places anywhere between the writers' steps and the clock decisions: directory renamed away / restored (open fails with ENOENT, held handles keep working), EMFILE / ENOSPC / EACCES on open; or a static failing target (file appender never started or already closed, console stream failing every write) driven through a synchronous logger. Fault placements are enumerated by the seeded scheduler tape (every position relative to boundaries and writes is reachable; sampled, not exhaustive). Non-trivial = a file creation actually failed at a boundary (fired > 0) while at least one write followed, or a static failing target received at least one call; distinct = distinct context-switch trace hashes (fault and clock actions are part of the trace). Since round 3: one third of the 10 min / 1 h cases run with MaxAge = 1 h and clock moves of several intervals (then the clock only moves between operations); a returned write that is in no file is looked up in the removal log of the simulated disk and may only have gone with a file last modified at least MaxAge before; in script mode (the enumerated grid, 864 placements incl. two appenders sharing the directory and hourly rotation with 1 h retention) every write is compared with the exact file a sequential per-appender model predicts."
+	return "case = C13-style workload (1-4 writers, clock decisions around 3-6 boundaries) plus an ordered list of fault actions the scheduler places anywhere between the writers' steps and the clock decisions: directory renamed away / restored (open fails with ENOENT, held handles keep working), EMFILE / ENOSPC / EACCES on open; or a static failing target (file appender never started or already closed, console stream failing every write) driven through a synchronous logger. Fault placements are enumerated by the seeded scheduler tape (every position relative to boundaries and writes is reachable; sampled, not exhaustive). Non-trivial = a file creation actually failed at a boundary (fired > 0) while at least one write followed, or a static failing target received at least one call; distinct = distinct context-switch trace hashes (fault and clock actions are part of the trace). Since round 3: one third of the 10 min / 1 h cases run with MaxAge = 1 h and clock moves of several intervals (then the clock only moves between operations); a returned write that is in no file is looked up in the removal log of the simulated disk and may only have gone with a file last modified at least MaxAge before; in script mode (the enumerated grid, 866 placements incl. two appenders sharing the directory and hourly rotation with 1 h retention) every write is compared with the exact file a sequential per-appender model predicts."
 }
 func (c19) Decode(raw json.RawMessage) (any, error) {
 	var s RollScn
@@ -1253,6 +1253,21 @@ func (c19) Grid() []any {
 				f(script)
 			}
 		}
+	}
+	// a long quiet interval with many writes, the directory away in the middle of it: the handle the
+	// appender holds stays good, nothing it does every N-th write may change that
+	for _, n := range []int{1030, 2100} {
+		var script []string
+		for i := 0; i < n; i++ {
+			if i == n/4 {
+				script = append(script, "out:rename")
+			}
+			if i == n-5 {
+				script = append(script, "restore")
+			}
+			script = append(script, "w")
+		}
+		out = append(out, &RollScn{Interval: "h", MaxAge: 100000, Writers: [][]int{{10}}, Script: script, Knobs: SimKnobs{Chunks: 1}})
 	}
 	// outages that last many boundaries (9-13): however often creation failed, the next boundary tries again
 	for _, kind := range []string{"rename", "emfile"} {
